@@ -129,10 +129,11 @@ example : ((timerLoopPopT 10 (runOps .repaired [.beh ⟨0, 0, [.timerAt 1 999 0 
 /-! ### deferred callbacks -/
 
 /-- The batch of deferred callbacks queued when the iteration began (`later = t->laters; t->laters = NULL`):
-    when the loop over it returns normally every one of them has been invoked exactly once, in queue
-    order (each with FIRE|UNBIND: `laterCb`), whatever they and the timers before them did. -/
-theorem deferred_batch_runs_once_in_order (l : List Nat) (st : St) (hok : (laterLoopT st l).1.status = .ok) :
-    (laterLoopT st l).2 = l := laterLoopT_all l st hok
+    the loop over it invokes its members at most once each, in queue order (each with FIRE|UNBIND: `laterCb`),
+    whatever they and the timers before them did — either variant of the source.  (Which members: with the
+    repaired cancel, those not cancelled meanwhile — `cancelled_later_never_runs_repaired`; as shipped, all of them —
+    `later_cancel_detached_counterexample`; that none is lost across iterations: `exactly_once`.) -/
+theorem deferred_batch_runs_once_in_order (l : List Nat) (st : St) : (laterLoopT st l).2.Sublist l := laterLoopT_sub l st
 
 example : (laterLoopT { runOps .shipped [.act (.later 0 0), .act (.later 1 1), .act (.later 2 0)] with laters := [] } [3, 2, 4]).2
     = [3, 2, 4] := by decide +kernel
@@ -236,14 +237,26 @@ theorem timer_past_dropped_repaired :
 def probeLaterCancel : List Op :=
   [.beh ⟨0, 0, [.cancel 1]⟩, .act (.later 0 0), .act (.later 1 2), .tick]
 
-/-- A deferred callback cancelled by an earlier one of the same batch: no UNBIND notification, and it
-    still runs (both variants of the source: no repair is proposed). -/
-theorem later_cancel_detached_counterexample (cfg : Config) (h : cfg = .shipped ∨ cfg = .repaired) :
-    (runOps cfg probeLaterCancel).log.reverse =
-      [.poll (some 0) [(-1, 1)] (some 0), .cb 0 3 .none, .a, .cb 1 3 .none] := by
-  cases h with
-  | inl h => subst h; decide +kernel
-  | inr h => subst h; decide +kernel
+/-- A deferred callback cancelled by an earlier one of the same batch, as shipped: no UNBIND notification, and it
+    still runs. -/
+theorem later_cancel_detached_counterexample :
+    (runOps .shipped probeLaterCancel).log.reverse =
+      [.poll (some 0) [(-1, 1)] (some 0), .cb 0 3 .none, .a, .cb 1 3 .none] := by decide +kernel
+
+/-- Repaired (`tickit_watch_cancel` marks an entry of the detached batch, the loop skips marked entries): the
+    cancelled callback gets the UNBIND notification it asked for, at once, and never runs; nothing is leaked. -/
+theorem cancelled_later_never_runs_repaired :
+    (runOps .repaired probeLaterCancel).log.reverse =
+      [.poll (some 0) [(-1, 1)] (some 0), .cb 0 3 .none, .a, .cb 1 2 .none] ∧
+    leaked (runOps .repaired probeLaterCancel) = [] ∧
+    ((runOps .repaired probeLaterCancel).slots.map (·.fires)) = [1, 0] := by decide +kernel
+
+/-- … also when a due timer cancels it (the batch is detached before the timers run), and a deferred callback
+    that cancels itself from its own callback is not notified a second time. -/
+theorem cancelled_later_by_timer_repaired :
+    (runOps .repaired [.beh ⟨0, 0, [.cancel 1]⟩, .beh ⟨2, 0, [.cancel 2]⟩, .act (.timer 0 0 0), .act (.later 1 6), .act (.later 2 2),
+      .tick]).log.reverse =
+      [.poll (some 0) [(-1, 1)] (some 0), .g, .cb 0 3 .none, .a, .cb 1 2 .none, .cb 2 3 .none, .a] := by decide +kernel
 
 def probePreExited : List Op := [.act (.exit 1000000000 0), .act (.process 0 1000000000 6), .destroy]
 
